@@ -66,12 +66,17 @@ def program(kind, init, ops, infn, alias_after=0):
             ["let", "mval", ["map", [(S("k"), V("subj"))]]], ["let", "cap", V("subj")], ["let", "clo", ["lambda", [], V("cap"), True]],
             ["let", "ch", ["chan", N(1)]], ["expr", ["send", V("ch"), V("subj")]], ["let", "via", ["recv", V("ch")]],
             ["let", "keyed", ["map", []]], ["expr", ["indexset", V("keyed"), V("subj"), S("K")]], ["expr", ["indexset", V("keyed"), V("other"), S("O")]],
-            ["let", "tup", ["tuple", [V("other"), V("subj")]]], ["let", "lst", ["list", [N(0), V("other"), V("subj")]]]]
+            ["let", "tup", ["tuple", [V("other"), V("subj")]]], ["let", "lst", ["list", [N(0), V("other"), V("subj")]]],
+            # a registry that itself grows after the subject was stored in it, reached through a field that still names its first block
+            ["let", "reg", ["list", [V("other")]]], ["let", "rbox", call("Box", V("reg"))], ["expr", inv(V("reg"), "push", V("subj"))],
+            ["for", "ri", inv(N(6), "times"), [["expr", inv(V("reg"), "push", ["list", [V("ri")]])]]]]
     al = [V("loc"), ["get", V("box"), "v"], ["index", V("nest1"), N(0)], ["index", ["index", V("nest2"), N(0)], N(0)], ["index", V("mval"), S("k")], call("clo"), V("via")]
     observe = [["print", [S("eq")] + [["bin", "==", V("subj"), a] for a in al] + [["bin", "==", al[1], al[3]], ["bin", "!=", V("subj"), V("other")], ["bin", "==", al[5], V("other")]]],
                ["print", [S("key"), inv(V("keyed"), "has", V("subj")), inv(V("keyed"), "get", al[1]), inv(V("keyed"), "get", al[3]), inv(V("keyed"), "get", V("other")), inv(V("keyed"), "len")]],
                ["try", [["print", [S("idx"), ["index", V("keyed"), al[5]], ["index", V("keyed"), V("via")]]]], "e", None, [["print", [S("idx!"), inv(inv(V("e"), "cls"), "name")]]]],
                ["print", [S("has"), inv(V("lst"), "has", V("subj")), inv(V("lst"), "index", al[3]), inv(V("lst"), "index", al[1]), inv(V("tup"), "has", al[1]), inv(V("tup"), "index", V("subj")), inv(V("tup"), "index", al[5]), inv(V("nest1"), "has", al[3])]],
+               ["print", [S("reg"), inv(["get", V("rbox"), "v"], "has", V("subj")), inv(["get", V("rbox"), "v"], "has", al[1]), inv(V("reg"), "has", al[3]), inv(["get", V("rbox"), "v"], "has", V("other")),
+                          inv(["get", V("rbox"), "v"], "len"), ["bin", "==", ["get", V("rbox"), "v"], V("reg")]]],
                ["print", [S("cont"), contents(kind, V("subj"))] + [contents(kind, a) for a in (al[1], al[3], al[5], al[6])]]]
     # observations are inlined: a closure over `subj` would box it (it must stay a plain stack local, the only place references are forwarded)
     body += observe
@@ -161,7 +166,8 @@ class C10(Check):
     id = "C10"
     level = "exploration"
     rule = ""
-    frozen = None   # the guard below is a semantic region (any growth after aliasing); recorded inputs would tie the finding to the runtime's capacity policy
+    # the finding is identified by the guard below (growth after aliasing) AND the recorded failing inputs; an input is a history together with
+    # the place of its first wrong line (known_regions/C10.json.gz, written by `./vc freeze C10`), so that a history that starts to fail earlier is reported
 
     assumptions = ["reference evaluator: objects carry an immutable identity; maps are association lists with identity/IEEE key equality",
                    "the alias 'through another fiber' is realised as a value sent through and received from a channel",
@@ -225,11 +231,12 @@ class C10(Check):
         if spec[0] == "list":
             aa = spec[4] if len(spec) > 4 else 0
             g = grew(len(spec[1]), spec[2], aa)
-            # observe() prints 5 lines; block b (0 = before any operation) starts at line 5*b (+ op! lines, at most one per op)
-            if g is not None and k >= 5 * g and r.get("class") in ("ok", "runtime_error") and not (r.get("panic")):
+            # observe() prints 6 lines; block b (0 = before any operation) starts at line 6*b (+ op! lines, at most one per op)
+            if g is not None and k >= 6 * g and r.get("class") in ("ok", "runtime_error") and not (r.get("panic")):
                 bad = (exp_l[k] if k < len(exp_l) else "").split(" ")[0]
-                if bad in ("eq", "key", "idx", "has") or r.get("class") == "runtime_error":
+                if bad in ("eq", "key", "idx", "has", "reg", "idx!") or r.get("class") == "runtime_error":
                     v.finding = "KF-C10-list-growth"
+                    v.extra["shape"] = "%s@%d" % (bad, k)
         return v
 
 
